@@ -419,6 +419,7 @@ class QuotientFilter:
 
             if remove_orig_idx:
                 self._is_occupied[q] = 0
+            self._elements_added -= 1
             return
 
         # find the minimum idx for the cluster; will be needed to determine if elements are in cluster start positions.
@@ -465,6 +466,7 @@ class QuotientFilter:
                 self._is_shifted[min_idx] = 0
                 self._is_occupied[min_idx] = 1
             min_idx = (min_idx + 1) & self.__mod_size
+        self._elements_added -= 1
 
     def _contained_at_loc(self, q: int, r: int) -> int:
         """returns the index location of the element, or -1 if not present"""
